@@ -273,6 +273,9 @@ def edit_cases(draw):
     ts = sorted({t for e in spec["entries"] for t in e[:-1]})
     mids = [(x + y) / 2 for x, y in zip(ts, ts[1:])]
     cands = [0.0] + [-t for t in ts] + [-m for m in mids] + [-(spec["maxT"] + 1.0), 0.5, 1.0]
+    if style != "grid":
+        # something is left reaching a few nanoseconds past 0 (it is clipped, not dropped), or ends a few nanoseconds before 0
+        cands += [-(t - 4e-9) for t in ts if t > 1e-6] + [-(t + 4e-9) for t in ts]
     off = draw(st.one_of(st.sampled_from(cands), gen.time_of(style), gen.time_of(style).map(lambda t: -t)))
     return {"tier": spec, "offset": off, "mode": draw(st.sampled_from(["silence", "warning", "error"]))}
 
